@@ -26,7 +26,8 @@ theorem finalization_invariant (p : Params) (ops : List Op) : FinInv (run p ops)
 /-- **Never early** (ghost form): every finalized state info of every reachable state was finalized
     at a hub height `finalizedAt ≥ creationHeight + dispute`, for every dispute period `p.dispute ≥ 0`.
     (`finalizedAt` is the model's ghost record of the hub height of the `EndBlock` that finalized the
-    state; `finalized_only_at_block_end` below ties it to the actual transition.) -/
+    state; `finalized_only_by_end_block` / `finalized_at_block_end` below are the ghost-free
+    transition forms.) -/
 theorem finalized_not_early (p : Params) (ops : List Op) (r : Rollapp) (hr : r ∈ (run p ops).ras)
     (st : SInfo) (hst : st ∈ r.states) (hf : st.finalized = true) :
     st.creationHeight + p.dispute ≤ st.finalizedAt := by
@@ -49,6 +50,38 @@ theorem finalized_only_at_block_end (p : Params) (ops : List Op) (fails : List (
     rw [run_append]; rfl
   rw [hrun] at hg'
   have := endBlock_newly fails (run_fin p ops) hr hst hnf hg' hst' hf
+  rw [run_p] at this
+  exact this
+
+/-- **Only the end of a block finalizes**: after any accepted op other than `end_` (updates, fraud
+    proposals, kicks, rotations, obsolete marking, `begin_` …) every finalized state info of the
+    post-state was already finalized in the pre-state — same rollapp, same index, same creator, heights,
+    descriptors, creation height and finalization height. -/
+theorem finalized_only_by_end_block (p : Params) (ops : List Op) (o : Op) (s' : St)
+    (h : apply (run p ops) o = .ok s') (hne : ∀ f, o ≠ .end_ f)
+    (r' : Rollapp) (hr' : r' ∈ s'.ras) (i : Nat) (st' : SInfo) (hst' : r'.states[i]? = some st')
+    (hf : st'.finalized = true) :
+    ∃ r ∈ (run p ops).ras, r.id = r'.id ∧ ∃ st, r.states[i]? = some st ∧ st.finalized = true ∧
+      st.creator = st'.creator ∧ st.start = st'.start ∧ st.num = st'.num ∧ st.bds = st'.bds ∧
+      st.creationHeight = st'.creationHeight ∧ st.finalizedAt = st'.finalizedAt := by
+  obtain ⟨r, hr, hid, st, hst, hk⟩ := apply_back h hne (run_inv p ops).1 (run_fin p ops) r' hr' i st' hst' hf
+  have f := sKey_fields hk
+  exact ⟨r, hr, hid, st, hst, by rw [f.2.2.2.2.1]; exact hf, f.1, f.2.1, f.2.2.1, f.2.2.2.2.2.1, f.2.2.2.1, f.2.2.2.2.2.2.2⟩
+
+/-- **… and only after the dispute period**: every finalized state info after an `end_` op (any
+    oracle) either was finalized before and is untouched, or was unfinalized with
+    `creationHeight + dispute ≤ block height` and differs only in the flag (and the ghost height). -/
+theorem finalized_at_block_end (p : Params) (ops : List Op) (fails : List (Nat × Nat))
+    (r' : Rollapp) (hg' : getRa (run p (ops ++ [.end_ fails])) r'.id = some r')
+    (i : Nat) (st' : SInfo) (hst' : r'.states[i]? = some st') (hf : st'.finalized = true) :
+    ∃ r ∈ (run p ops).ras, r.id = r'.id ∧ ∃ st, r.states[i]? = some st ∧
+      ((st.finalized = true ∧ st' = st) ∨
+       (st.finalized = false ∧ st.creationHeight + p.dispute ≤ (run p ops).h ∧
+         st' = { st with finalized := true, finalizedAt := (run p ops).h })) := by
+  have hrun : run p (ops ++ [.end_ fails]) = endBlock (run p ops) fails := by
+    rw [run_append]; rfl
+  rw [hrun] at hg'
+  have := endBlock_back fails (run_fin p ops) hg' hst' hf
   rw [run_p] at this
   exact this
 
